@@ -169,12 +169,11 @@ func (s *MultilineReverseSuffixSearcher) Find(haystack []byte) *Match {
 		// Find the start of the line containing this suffix
 		lineStart := findLineStart(haystack, suffixPos)
 
-		// Fast path: simple prefix verification (just byte comparison)
-		if len(s.prefixBytes) > 0 {
-			if s.verifyPrefix(haystack, lineStart) {
-				// Match found! No DFA needed.
-				return NewMatch(lineStart, suffixPos+s.suffixLen, haystack)
-			}
+		// Fast path: simple prefix verification (just byte comparison).
+		// A prefix hit is only a candidate: what lies between prefix and suffix
+		// (`^/.*\dphp`) and the greedy match end (LAST suffix on the line) still
+		// need the DFA below. A prefix miss rejects the whole line without DFA.
+		if len(s.prefixBytes) > 0 && !s.verifyPrefix(haystack, lineStart) {
 			// Prefix doesn't match at this line start.
 			// Optimization: skip to next line - all other candidates on this line
 			// will have the same lineStart and will also fail.
@@ -228,11 +227,8 @@ func (s *MultilineReverseSuffixSearcher) FindAt(haystack []byte, at int) *Match 
 			lineStart = at
 		}
 
-		// Fast path: simple prefix verification
-		if len(s.prefixBytes) > 0 {
-			if s.verifyPrefix(haystack, lineStart) {
-				return NewMatch(lineStart, suffixPos+s.suffixLen, haystack)
-			}
+		// Fast path: a prefix miss rejects the whole line; a hit is verified by the DFA
+		if len(s.prefixBytes) > 0 && !s.verifyPrefix(haystack, lineStart) {
 			// Prefix doesn't match - skip to next line
 			nextLine := bytes.IndexByte(haystack[suffixPos:], '\n')
 			if nextLine == -1 {
@@ -294,11 +290,8 @@ func (s *MultilineReverseSuffixSearcher) findIndicesAtImpl(haystack []byte, at i
 			lineStart = at
 		}
 
-		// Fast path: simple prefix verification
-		if len(s.prefixBytes) > 0 {
-			if s.verifyPrefix(haystack, lineStart) {
-				return lineStart, suffixPos + s.suffixLen, true
-			}
+		// Fast path: a prefix miss rejects the whole line; a hit is verified by the DFA
+		if len(s.prefixBytes) > 0 && !s.verifyPrefix(haystack, lineStart) {
 			// Prefix doesn't match - skip to next line
 			nextLine := bytes.IndexByte(haystack[suffixPos:], '\n')
 			if nextLine == -1 {
@@ -349,11 +342,8 @@ func (s *MultilineReverseSuffixSearcher) IsMatch(haystack []byte) bool {
 		// Find line start
 		lineStart := findLineStart(haystack, suffixPos)
 
-		// Fast path: simple prefix verification
-		if len(s.prefixBytes) > 0 {
-			if s.verifyPrefix(haystack, lineStart) {
-				return true
-			}
+		// Fast path: a prefix miss rejects the whole line; a hit is verified by the DFA
+		if len(s.prefixBytes) > 0 && !s.verifyPrefix(haystack, lineStart) {
 			// Prefix doesn't match - skip to next line
 			nextLine := bytes.IndexByte(haystack[suffixPos:], '\n')
 			if nextLine == -1 {
